@@ -750,7 +750,8 @@ class Server():
             if ca in self.servant.ixes:
                 self.servant.ixes[ca].serviceSends()  #  send final bytes to socket
             del self.reps[ca]
-        self.servant.removeIx(ca)
+        if ca in self.servant.ixes:  # servant removes on its own when receive fails
+            self.servant.removeIx(ca)
 
 
     def serviceConnects(self):
@@ -842,6 +843,8 @@ class Server():
         """
         self.serviceConnects()
         self.servant.serviceReceivesAllIx()
+        for ca in [ca for ca in self.reqs if ca not in self.servant.ixes]:
+            self.closeConnection(ca)  # servant removed it since receive failed
         self.serviceReqs()
         self.serviceReps()
         self.servant.serviceSendsAllIx()
@@ -1193,7 +1196,8 @@ class BareServer():
         """
         Close and remove connection and associated steward given by ca
         """
-        self.servant.removeIx(ca)
+        if ca in self.servant.ixes:  # servant removes on its own when receive fails
+            self.servant.removeIx(ca)
         del self.stewards[ca]
 
 
@@ -1253,6 +1257,8 @@ class BareServer():
         """
         self.serviceConnects()
         self.servant.serviceReceivesAllIx()
+        for ca in [ca for ca in self.stewards if ca not in self.servant.ixes]:
+            self.closeConnection(ca)  # servant removed it since receive failed
         self.serviceStewards()
         self.servant.serviceSendsAllIx()
 
